@@ -703,6 +703,13 @@ func replayCheck(c *cluster.Cluster, sk *sink, shardID uint64, replicas map[uint
 			sk.Violation("C08", "state-differs-from-full-replay",
 				fmt.Sprintf("replica %d (%s, %d snapshot recoveries): %s", rep, when, recovered[rep], bad),
 				map[string]interface{}{"case": caseNo, "replica": rep, "applied": applied, "when": when, "snapshot_recoveries": recovered[rep]})
+			if recovered[rep] > 0 {
+				// in terms of C04: what this replica holds after recovering (restart, repair by snapshot) is not
+				// what was committed and acknowledged - entries reported Completed are missing or doubled
+				sk.Violation("C04", "state-after-recovery-differs-from-the-committed-log",
+					fmt.Sprintf("replica %d (%s, %d snapshot recoveries): %s", rep, when, recovered[rep], bad),
+					map[string]interface{}{"case": caseNo, "replica": rep, "applied": applied, "when": when, "snapshot_recoveries": recovered[rep]})
+			}
 		}
 	}
 }
